@@ -9,10 +9,17 @@ def cfg(ctrls, maxmsgs, lens, nbg):
     return t
 
 def msgtok(msgs):
-    return ";".join("%s:%08x:%d:%s" % (m["kind"][0], from64(m["id"]) & 0xFFFFFFFF, m["fd"], hexs(m["payload"])) for m in msgs) or "-"
+    def one(m):
+        if m["kind"] == "gpc":                 # the application's payload is the unpadded prefix; the specification stores it padded
+                    return "g:%012x:0:%s" % (from64(m["id"]), hexs(m["payload"][:m["rawlen"]]))
+        return "%s:%08x:%d:%s" % (m["kind"][0], from64(m["id"]) & 0xFFFFFFFF, m["fd"], hexs(m["payload"]))
+    return ";".join(one(m) for m in msgs) or "-"
 
 def walktok(msgs):
-    return "".join("%s:%08x:%d:%d:%s;" % (m["kind"][0], from64(m["id"]) & 0x1FFFFFFF, m["fd"], 1 if from64(m["id"]) > 0x7FF else 0, hexs(m["payload"])) for m in msgs) or "-"
+    def one(m):
+        if m["kind"] == "gpc": return "g:%012x:0:0:%s;" % (from64(m["id"]), hexs(m["payload"]))
+        return "%s:%08x:%d:%d:%s;" % (m["kind"][0], from64(m["id"]) & 0x1FFFFFFF, m["fd"], 1 if from64(m["id"]) > 0x7FF else 0, hexs(m["payload"]))
+    return "".join(one(m) for m in msgs) or "-"
 
 def cmd(vec, place, off):
     return "CT %s %s %d %s %s" % (vec["ctrl"], place, off, hexs(vec["pre"]), msgtok(vec["msgs"]))
